@@ -1,8 +1,10 @@
 package graph
 
 import (
+	"cmp"
 	"errors"
 	"fmt"
+	"slices"
 
 	"gonum.org/v1/gonum/graph"
 	"gonum.org/v1/gonum/graph/encoding"
@@ -68,7 +70,11 @@ func (g *AuthorizationModelGraph) Reversed() (*AuthorizationModelGraph, error) {
 		graphBuilder.AddNode(nextNode)
 	}
 
-	// Add all edges as-is, but with their From and To flipped.
+	// Add all edges as-is, but with their From and To flipped. The lines are collected first and
+	// re-added in the order of their IDs, so that parallel lines keep their relative order and the
+	// reversed graph (and its DOT rendering) does not depend on map iteration order.
+	lines := make([]*AuthorizationModelEdge, 0)
+
 	iterEdges := g.Edges()
 	for iterEdges.Next() {
 		nextEdge, ok := iterEdges.Edge().(multi.Edge)
@@ -83,8 +89,16 @@ func (g *AuthorizationModelGraph) Reversed() (*AuthorizationModelGraph, error) {
 			if !ok {
 				return nil, fmt.Errorf("%w: could not cast to AuthorizationModelEdge", ErrBuildingGraph)
 			}
-			graphBuilder.AddEdge(nextLine.To(), nextLine.From(), casted.edgeType, casted.tuplesetRelation, casted.conditions)
+			lines = append(lines, casted)
 		}
+	}
+
+	slices.SortFunc(lines, func(a, b *AuthorizationModelEdge) int {
+		return cmp.Compare(a.ID(), b.ID())
+	})
+
+	for _, line := range lines {
+		graphBuilder.AddEdge(line.To(), line.From(), line.edgeType, line.tuplesetRelation, line.conditions)
 	}
 
 	// Make a brand new copy of the map.
